@@ -321,17 +321,26 @@ func genSpec(r *hx.Rand) *Spec {
 					t.Fields = append(t.Fields, nf)
 				}
 			}
-			if g.careless("nouncond") {
-				// no unconditional field
-			} else if !hasField(t, "id") || len(t.Fields) == 0 {
-				t.Fields = append(t.Fields, FieldSpec{Name: "n", Type: hx.Pick(r, []string{"Int", "String", "Int!"})})
-			}
 		}
-		if (t.Name == "Mutation" || t.Name == "Subscription") && !g.careless("nouncond") {
+		noUncond := t.Name != "Query" && len(t.Ifaces) == 0 && g.careless("nouncond")
+		switch {
+		case noUncond:
+		case t.Name == "Mutation" || t.Name == "Subscription":
 			t.Fields = append(t.Fields, FieldSpec{Name: "touch", Type: "Int"})
+		case t.Name != "Query" && (!hasField(t, "id") || len(t.Fields) == 0):
+			t.Fields = append(t.Fields, FieldSpec{Name: "n", Type: hx.Pick(r, []string{"Int", "String", "Int!"})})
 		}
 		for j, n := 0, r.Range(1, 3); j < n; j++ {
 			t.Fields = append(t.Fields, g.genField(t.Name, fmt.Sprintf("%sf%d", strings.ToLower(t.Name), j)))
+		}
+		if noUncond {
+			// every field asks for a feature the type itself does not require: schema.New must refuse
+			// ("must have at least one field"), and an erasure could leave the type empty
+			for fi := range t.Fields {
+				if extra := minus(g.feats, t.Req); subset(t.Fields[fi].Req, fset(t.Req)) && len(extra) > 0 {
+					t.Fields[fi].Req = union(t.Fields[fi].Req, []string{hx.Pick(r, extra)})
+				}
+			}
 		}
 	}
 	// root fields reaching every composite type, so that most of the schema is reachable
